@@ -43,6 +43,27 @@ ENV = [('X', 'xval'), ('Y', 'y v'), ('S_1', '@[X]@'), ('é', 'q\'"'), ('E', '')]
 ENV_D = dict(ENV)
 
 
+_OPTION_WORDS = None
+
+
+def option_words():
+    """every option word of the grammar, collected from the RUNNING program (all OptionName objects alive after the main
+    program with its instruction set has been imported); fail-closed if the known core is missing"""
+    global _OPTION_WORDS
+    if _OPTION_WORDS is None:
+        import gc
+        impl.main_program(tempfile.gettempdir())
+        from exactly_lib.util.cli_syntax.elements.argument import OptionName
+        from exactly_lib.util.cli_syntax import option_syntax
+        ws = sorted({option_syntax.long_option_syntax(o.long) for o in gc.get_objects() if isinstance(o, OptionName) and o.long})
+        core = {'-existing-file', '-existing-dir', '-existing-path', '-contents-of', '-stdout-from', '-stderr-from', '-stdin',
+                '-transformed-by', '-ignore-exit-code', '-python', '-of', '-rel-act', '-rel-home', '-rel-tmp'}
+        if not core <= set(ws) or any(not w.startswith('-') or any(c in w for c in ' \t\r\n\'"@') for w in ws):
+            raise RuntimeError('option words of the running program could not be collected: %r' % ws)
+        _OPTION_WORDS = ws
+    return _OPTION_WORDS
+
+
 def is_ident(c):
     return c.isalnum() or c == '_'
 
@@ -114,6 +135,9 @@ def gen_token(rng, allow_nl=True):
         return [('N', rng.choice(RESERVED))]
     if r < 10:
         return [('N', rng.choice(['-opt', '--', '-', '<<EOF', ':>', '\\', '#', '#x', '<<']))]
+    if r < 14:
+        # a QUOTED word is always literal text, also when it is spelled like an option of the grammar
+        return [(rng.choice('SH'), rng.choice(option_words()))]
     n = rng.weighted([(1, 50), (2, 30), (3, 15), (4, 5)])
     return [(k, gen_text(rng, k, allow_nl)) for k in (rng.choice('NSH') for _ in range(n))]
 
@@ -1283,6 +1307,18 @@ def run(ctx, res):
             l, ut = with_unterm(rng, gen_args(rng))
         src = lead + render_list(l) + render_unterm(ut)
         add(list_case(im, src, (lead, l, ut), is_args=True), ('args', src) if (len(l[0]) >= 2 or ut is not None) else None)
+    # a fully quoted word that is spelled like an option of the grammar is literal text: every option word of the running
+    # program, hard- and soft-quoted, at every string / list-element / program-argument position (seeded C09-m12)
+    for w in option_words():
+        for q in 'HS':
+            t = [(q, w)]
+            l = ([_arg('N', 'a'), ('tok', t, ' '), _arg('N', 'b', '')], None, None)
+            add(list_case(im, ' ' + render_list(l), (' ', l, None), is_args=True), ('args', q, w))
+            add(list_case(im, render_list(l), ('', l, None)), ('list', q, w))
+            add(parse_case(im, 'rich', render_tok(t) + ' b', ('', ('plain', [(t, ' '), ([('N', 'b')], '')], None))), ('rich', q, w))
+            add(parse_case(im, 'string', render_tok(t), ('', ('plain', [(t, '')], None))), ('string', q, w))
+            add(script_case(im, '', [('tok', t, ' '), ('str', True, t, ' '), ('str', False, t, '')], None), ('script', q, w))
+            res.count('quoted option word')
     # several strings / tokens in one stream
     for j in range(len(CORPUS_SCRIPT) + n_script):
         if j < len(CORPUS_SCRIPT):
@@ -1316,6 +1352,12 @@ def run(ctx, res):
             via_list = j % 3 == 2
             add(args_e2e_case(e2e, l, ut, via_list), ('args-e2e', via_list, render_list(l) + render_unterm(ut)))
             res.count('end to end: ' + ('def list + argv' if via_list else 'argv') + (' (unterminated quote)' if ut is not None else ''))
+        for j, w in enumerate(option_words()):
+            q = 'HS'[j % 2]
+            add(e2e_case(e2e, ('plain', [([(q, w)], '\n')] + E2E_NEXT_ITEMS, None)), ('e2e', q, w))
+            add(args_e2e_case(e2e, ([_arg('N', 'a'), ('tok', [('SH'[j % 2], w)], ' '), _arg('N', 'b', '')], None, None)),
+                ('args-e2e', w))
+            res.count('end to end: quoted option word')
         for j in range(len(CORPUS_DIR) + n_e2e // 2):
             segs, ut = CORPUS_DIR[j] if j < len(CORPUS_DIR) else gen_dir(rng)
             add(dir_e2e_case(e2e, segs, ut), ('dir-e2e', render_segs(segs) + render_unterm(ut)))
@@ -1328,7 +1370,8 @@ def run(ctx, res):
                 'option-like words, #, backslash, <<, :>, non-ASCII incl. alphanumeric non-ASCII and Unicode white space; '
                 'symbol-reference pieces @[ ]@ @[X]@ and near-misses; unterminated quotes; here-documents whose lines resemble '
                 'markers, headers, comments; lists and program arguments with continuation lines and a stopping parenthesis; string AND '
-                'list symbols referenced naked, soft-quoted alone / with surrounding text, hard-quoted; end to end: contents of '
+                'list symbols referenced naked, soft-quoted alone / with surrounding text, hard-quoted; every option word of the running '
+                'program fully quoted (hard / soft) at every string, list-element and argument position; end to end: contents of '
                 '`file f = ...` and argv of a probe program) rendered to text, plus '
                 'unstructured character soup. non-trivial := token with >= 2 differently quoted fragments / unterminated quote '
                 '/ symbol-reference syntax present / :> or here-document form / list with >= 2 items / text with >= 2 "@["; '
